@@ -491,6 +491,22 @@ func c08BuildDaemon(tier string) core.Source {
 		for off := 0; off < total; off++ {
 			muts = append(muts, c08Mut{shape: si, field: -1, off: off, second: -1, descr: fmt.Sprintf("%s: truncated after %d of %d bytes", sh.name, off, total)})
 		}
+		// every pair of deviations inside one checksum header (count, block length, strong length, remainder):
+		// the header's fields are validated against each other, so a single deviation is often refused early
+		for fi := range b.f {
+			if b.f[fi].name != "sum-count" {
+				continue
+			}
+			for x := fi; x < fi+4; x++ {
+				for y := x + 1; y < fi+4; y++ {
+					for ai := range b.f[x].alts {
+						for aj := range b.f[y].alts {
+							muts = append(muts, c08Mut{shape: si, field: x, alt: ai, second: y, secAlt: aj, descr: fmt.Sprintf("%s: %s -> %s and %s -> %s", sh.name, b.f[x].name, b.f[x].desc[ai], b.f[y].name, b.f[y].desc[aj])})
+						}
+					}
+				}
+			}
+		}
 		if tier == "thorough" {
 			for off := 0; off < total; off++ {
 				for _, x := range []byte{0x00, 0x01, 0x7f, 0x80, 0xff} {
@@ -655,6 +671,18 @@ func c08BuildClient(tier string) core.Source {
 			muts = append(muts, cm{3, fi, ai, 0, fmt.Sprintf("server handshake: %s -> %s", f.name, f.desc[ai])})
 		}
 	}
+	// complete frames of every size class (the length field has 24 bits) and every tag, delivered with
+	// their whole payload at several positions of the session
+	bigLens := []int{0, 1, 4095, 4096, 65535, 65536, 262143, 262144, 262145, 300000, 1<<20 - 1, 1 << 20, 1<<24 - 1}
+	bigTags := []int{rp.TagData, rp.TagError, rp.TagInfo, 3, 4, 6, 42, 248}
+	bigPos := []int{0, 7, 200, len(pay.bytes()) - 30}
+	for _, l := range bigLens {
+		for _, tg := range bigTags {
+			for pi, pos := range bigPos {
+				muts = append(muts, cm{5, tg, l, pi, fmt.Sprintf("complete frame tag=%d length=%d at payload offset %d", tg, l, pos)})
+			}
+		}
+	}
 	const batch = 8
 	n := (len(muts) + batch - 1) / batch
 	return core.FuncSource{N: n, F: func(i int) core.Result {
@@ -675,7 +703,22 @@ func c08BuildClient(tier string) core.Source {
 				prefix = c08ApplyMut(pre, c08Mut{field: m.field, alt: m.alt, second: -1})
 			}
 			stream = append(stream, prefix...)
-			if m.kind == 2 {
+			if m.kind == 5 {
+				pos, l := bigPos[m.off], m.alt
+				for off := 0; off < pos; off += 500 {
+					stream = append(stream, rp.EncodeFrame(rp.TagData, payload[off:min(off+500, pos)])...)
+				}
+				body := make([]byte, l)
+				rest := payload[pos:]
+				if m.field == rp.TagData {
+					n := copy(body, rest)
+					rest = rest[n:]
+				}
+				stream = append(stream, rp.EncodeFrame(m.field, body)...)
+				for off := 0; off < len(rest); off += 500 {
+					stream = append(stream, rp.EncodeFrame(rp.TagData, rest[off:min(off+500, len(rest))])...)
+				}
+			} else if m.kind == 2 {
 				var w rp.W
 				w.Int(int32(hdrs[m.field]))
 				stream = append(stream, w.Bytes()...)
@@ -710,7 +753,7 @@ func init() {
 	core.Register(&core.Prop{
 		ID:    "C08",
 		Level: "model_checking",
-		Rule: "daemon: six valid daemon-session shapes (module listing, pull, pull with -logc and real block sums, pull with filter rules, upload, upload with --delete) are built as typed field sequences; at EVERY field every value of its type's boundary set is substituted (ints: -2^31,-2,-1,0,1,v-1,v+1,2^20-1,2^31-1 and list-length+-1 for indices; flag bytes: every single bit; names/rules/link targets: empty, dot-dot, absolute, 4095/4096 bytes, wildcards, NUL, and inconsistent lengths incl. negative; greeting/module lines; EVERY option the parser knows (from its help texts) alone and with =x on every option line, plus --version/--help/--info=help/-h/--daemon/...), and the stream is truncated at EVERY byte offset (thorough: bytes {00,01,7f,80,ff} substituted at every offset and pairs of adjacent field mutations); after each hostile session the same daemon must serve the canonical valid pull correctly. client: the library client is fed a hostile server's stream with the same mutations at every field of the file list / responses, truncation at every payload offset and malformed frame headers. " +
+		Rule: "daemon: six valid daemon-session shapes (module listing, pull, pull with -logc and real block sums, pull with filter rules, upload, upload with --delete) are built as typed field sequences; at EVERY field every value of its type's boundary set is substituted (ints: -2^31,-2,-1,0,1,v-1,v+1,2^20-1,2^31-1 and list-length+-1 for indices; flag bytes: every single bit; names/rules/link targets: empty, dot-dot, absolute, 4095/4096 bytes, wildcards, NUL, and inconsistent lengths incl. negative; greeting/module lines; EVERY option the parser knows (from its help texts) alone and with =x on every option line, plus --version/--help/--info=help/-h/--daemon/...), and the stream is truncated at EVERY byte offset (thorough: bytes {00,01,7f,80,ff} substituted at every offset and pairs of adjacent field mutations); after each hostile session the same daemon must serve the canonical valid pull correctly. client: the library client is fed a hostile server's stream with the same mutations at every field of the file list / responses, truncation at every payload offset, malformed frame headers, and complete frames of 13 lengths (0..2^24-1 around 4 KiB, 64 KiB, 256 KiB, 1 MiB) x 8 tags x 4 positions delivered with their whole payload. " +
 			"oracle: the process neither crashes nor exits (a dying worker is attributed to the journalled case) and the daemon keeps serving; states/transitions = hostile sessions; non-trivial = session that got past the handshake",
 		Assum: []string{"count-like fields stay below 2^20 unless negative; every hostile peer closes its connection; stalls are outside the guarantee"},
 		Parts: func(tier string) []core.Part {
